@@ -55,7 +55,7 @@ func (r *Remote) Advertise(rng *rand.Rand, have []bool) {
 }
 
 // AnswerKind enumerates the ways a remote can answer a request.
-var AnswerKinds = []string{"truth", "truth", "truth", "truth", "corrupt", "short", "empty", "overlong", "misplaced", "duplicate", "reject"}
+var AnswerKinds = []string{"truth", "truth", "truth", "truth", "corrupt", "short", "empty", "overlong", "misplaced", "duplicate", "reject", "misaligned"}
 
 // Answer answers one outstanding request k in the given way.
 func (r *Remote) Answer(k BlockKey, kind string, salt uint64) {
@@ -108,6 +108,14 @@ func (r *Remote) Answer(k BlockKey, kind string, salt uint64) {
 			ob, ln = 0, g.BlockLen(int(k.Index), 0)
 		}
 		r.Send(refwire.Msg{Kind: refwire.KPiece, Index: k.Index, Begin: ob, Data: g.Truth(int64(k.Index)*int64(g.PieceLen)+int64(ob), ln)})
+	case "misaligned":
+		// the requested block, shifted by a byte or two: it names the same 16 KiB slot, and the store cannot
+		// take it
+		sh := uint32(1 + salt%3)
+		r.Send(refwire.Msg{Kind: refwire.KPiece, Index: k.Index, Begin: k.Begin + sh, Data: g.Truth(off, n)})
+		if salt%2 == 0 {
+			r.Close() // and it hangs up right away
+		}
 	case "duplicate":
 		r.Send(refwire.Msg{Kind: refwire.KPiece, Index: k.Index, Begin: k.Begin, Data: g.Truth(off, n)})
 		r.Send(refwire.Msg{Kind: refwire.KPiece, Index: k.Index, Begin: k.Begin, Data: g.Truth(off, n)})
@@ -424,6 +432,18 @@ func RunDownload(sw *Swarm, rng *rand.Rand, o DownloadOpts) (tr *Tor, stats map[
 				for k := 0; k < n; k++ {
 					q := togglers[rng.IntN(len(togglers))]
 					i := rng.IntN(np)
+					if k%24 == 7 {
+						// a whole new bitfield, and right behind it a have for a piece it lacks (the "lazy
+						// bitfield" habit): the report of the bitfield is still on its way when the have is handled
+						have := make([]bool, np)
+						for j := range have {
+							have[j] = rng.IntN(2) == 0
+						}
+						have[i] = false
+						q.Send(refwire.Msg{Kind: refwire.KBitfield, Data: bitfieldOf(have)})
+						q.Send(refwire.Msg{Kind: refwire.KHave, Index: uint32(i)})
+						continue
+					}
 					if q.Advertises(i) {
 						q.SendDontHave(uint32(i))
 					} else {
